@@ -664,5 +664,102 @@ func C18(c *fw.Ctx) {
 			}
 		}
 	}
+	c18StaticFaults(c)
 	c.Sample(map[string]string{"original": model.KwPrint + " 1 && 2;", "transformed": model.KwPrint + " /*c*/ ১ " + model.KwAnd + " //c\n (২) ;"})
+}
+
+// c18StaticFaults: texts with one to three lexical / syntax faults (every sequence of up to three
+// statements over a pool of well-formed and faulty ones, none a ধরি declaration), each written in seven
+// layouts (one line; one piece per line; tabs; block comments; line comments; CRLF; two pieces per line):
+// stdout, status and the whole list of diagnostics, line numbers aside, must not depend on the layout.
+func c18StaticFaults(c *fw.Ctx) {
+	P := model.KwPrint
+	pool := [][]string{
+		{P, "1", ";"},
+		{P, "1", "#", "2", ";"},
+		{P, "1"},
+		{P, ";"},
+		{")", ";"},
+		{"a", "=", ";"},
+		{"@"},
+		{"{", P, "2", ";"},
+		{model.KwIf, "(", "1", P, "3", ";"},
+		{P, "\"s\"", "+", ";"},
+		{"}", P, "4", ";"},
+	}
+	layouts := []struct {
+		name string
+		sep  func(i int) string
+	}{
+		{"one-line", func(i int) string { return " " }},
+		{"piece-per-line", func(i int) string { return "\n" }},
+		{"tabs", func(i int) string { return "\t" }},
+		{"block-comments", func(i int) string { return " /* c */ " }},
+		{"line-comments", func(i int) string { return " // c\n" }},
+		{"crlf", func(i int) string { return "\r\n" }},
+		{"two-per-line", func(i int) string {
+			if i%2 == 1 {
+				return "\n"
+			}
+			return " "
+		}},
+	}
+	c.Bound("static_fault_statement_pool", len(pool))
+	mask := func(s string) string { return lineTag.ReplaceAllString(s, "[line _]") }
+	for n := 1; n <= 3; n++ {
+		idx := make([]int, n)
+		for {
+			if c.Mine() {
+				var pieces []string
+				for _, i := range idx {
+					pieces = append(pieces, pool[i]...)
+				}
+				var refSrc, refKey string
+				for li, lay := range layouts {
+					var sb strings.Builder
+					for pi, pc := range pieces {
+						if pi > 0 {
+							sb.WriteString(lay.sep(pi))
+						}
+						sb.WriteString(pc)
+					}
+					sb.WriteString("\n")
+					src := sb.String()
+					o := h.RunFile(src, h.Opts{Fuel: 300000})
+					c.Eval(src, true)
+					c.Count("static_fault_layout_runs")
+					base := fw.Replay{Mode: "file", Program: src, CLI: true, InStdout: o.Stdout, InStderr: o.Stderr, InStatus: o.Status}
+					if abnormal(c, o, "file", src, base) {
+						continue
+					}
+					key := fmt.Sprintf("status %d stdout %q diagnostics %q", o.Status, o.Stdout, mask(o.Stderr))
+					c.Outcome(key)
+					if li == 0 {
+						refSrc, refKey = src, key
+						continue
+					}
+					if key != refKey {
+						r := base
+						r.Sig = "C18|layout-" + lay.name + "|static-faults"
+						r.Related = []string{refSrc}
+						r.What = "a text with lexical / syntax faults is diagnosed differently when only its layout changes"
+						r.Expected, r.Observed = "as on one line: "+trunc(refKey, 400), trunc(key, 400)
+						c.Violate(r)
+					}
+				}
+			}
+			k := n - 1
+			for k >= 0 {
+				idx[k]++
+				if idx[k] < len(pool) {
+					break
+				}
+				idx[k] = 0
+				k--
+			}
+			if k < 0 {
+				break
+			}
+		}
+	}
 }
